@@ -152,7 +152,7 @@ def with_extra(inp):
         return inp
     out = dict(inp)
     other = dict(out.get("other") or {})
-    other.update(ex)
+    other.update({k: v for k, v in ex.items() if k not in (inp.get("derived") or [])})      # derived fields have no column: the program computes them
     out["other"] = other
     return out
 
